@@ -85,9 +85,9 @@ func c11Alphabet(mode string) lexAlphabet {
 	case "rune2": // the highest character is exactly U+07FF: the boundary between the flat and the compressed rune map
 		return lexAlphabet{Mode: "rune", Chars: []string{"a", "b", "é", "λ", "\u07ff", "\n", " "}, Pat: []string{"a", "b", "é", "λ", "\u07ff", `\n`, `\x20`},
 			Width: []int{1, 1, 2, 2, 2, 1, 1}, Canon: []int{1, 2, 3, 4, 5, 6, 7}}
-	case "rune3": // characters that are awkward inside generated Go source (token comments, string literals): BOM, line separators, DEL
-		return lexAlphabet{Mode: "rune", Chars: []string{"a", "b", "\ufeff", "\u2028", "\u0085", "\n", " "}, Pat: []string{"a", "b", `\ufeff`, `\u2028`, `\u0085`, `\n`, `\x20`},
-			Width: []int{1, 1, 3, 3, 2, 1, 1}, Canon: []int{1, 2, 3, 4, 5, 6, 7}}
+	case "rune3": // characters that are awkward inside generated Go source (token comments, string literals): NUL, BOM, line separators, carriage return
+		return lexAlphabet{Mode: "rune", Chars: []string{"a", "\x00", "\ufeff", "\u2028", "\r", "\n", " "}, Pat: []string{"a", `\x00`, `\ufeff`, `\u2028`, `\r`, `\n`, `\x20`},
+			Width: []int{1, 1, 3, 3, 1, 1, 1}, Canon: []int{1, 2, 3, 4, 5, 6, 7}}
 	}
 	return lexAlphabet{Mode: "rune", Chars: []string{"a", "b", "é", "𝄞", "中", "\n", " "}, Pat: []string{"a", "b", "é", "𝄞", "中", `\n`, `\x20`},
 		Width: []int{1, 1, 2, 4, 3, 1, 1}, Canon: []int{1, 2, 3, 4, 5, 6, 7}}
